@@ -10,7 +10,7 @@ for d in dirs:
     if not os.path.exists(patch):
         continue
     name = os.path.basename(d)
-    prop = name.split('-')[-1] if name.split('-')[-1].startswith('C') else None
+    prop = name.split('-')[-1][:3] if name.split('-')[-1].startswith('C') else None
     props = os.environ.get('PROPS', '').split() or ([prop] if prop else ALL)
     assert subprocess.run(['git', '-C', '/repo', 'status', '--porcelain', '--untracked-files=no'], capture_output=True, text=True).stdout.strip() == '', '/repo dirty'
     r = subprocess.run(['git', '-C', '/repo', 'apply', patch])
